@@ -1,6 +1,6 @@
 // Command shapehash is the drift guard of the hand-written pipeline models (C01/C04, T-out tie).
 // For each modelled function it prints a normalised hash of the function's syntax tree (comments,
-// positions and the verif hook calls removed) and its call-chain shape (the selector / function
+// positions, the verif hook calls and bindings that only feed them removed) and its call-chain shape (the selector / function
 // names called in the body, in source order).
 //
 //	shapehash -repo /repo -list spec.txt          prints JSON {"file:Recv.Func": {"hash":..,"shape":[..]}}
@@ -53,18 +53,58 @@ func recvName(fd *ast.FuncDecl) string {
 	}
 }
 
-// stripHooks removes `verifAt(...)` expression statements from every block
-func stripHooks(n ast.Node) {
+// isHookCall: a call of a function or method whose name starts with "verif" (verifAt, verifSig,
+// s.verifYield, ...): the build-tag guarded verification hooks. With the tag off they are empty
+// functions; with the tag on they only observe/yield.
+func isHookCall(e ast.Expr) bool {
+	c, ok := e.(*ast.CallExpr)
+	if !ok {
+		return false
+	}
+	switch f := c.Fun.(type) {
+	case *ast.Ident:
+		return strings.HasPrefix(f.Name, "verif")
+	case *ast.SelectorExpr:
+		return strings.HasPrefix(f.Sel.Name, "verif")
+	}
+	return false
+}
+
+func isHookStmt(s ast.Stmt) bool {
+	switch x := s.(type) {
+	case *ast.ExprStmt:
+		return isHookCall(x.X)
+	case *ast.DeferStmt:
+		return isHookCall(x.Call)
+	}
+	return false
+}
+
+// pureExpr: identifiers, field selections, dereferences, literals, parentheses - evaluating it
+// has no effect (a nil dereference aside), so a binding of it that nobody reads can be dropped.
+func pureExpr(e ast.Expr) bool {
+	switch x := e.(type) {
+	case *ast.Ident, *ast.BasicLit:
+		return true
+	case *ast.SelectorExpr:
+		return pureExpr(x.X)
+	case *ast.StarExpr:
+		return pureExpr(x.X)
+	case *ast.ParenExpr:
+		return pureExpr(x.X)
+	}
+	return false
+}
+
+func filterStmts(n ast.Node, drop func(ast.Stmt) bool) bool {
+	changed := false
 	ast.Inspect(n, func(x ast.Node) bool {
 		filter := func(list []ast.Stmt) []ast.Stmt {
 			out := list[:0:0]
 			for _, s := range list {
-				if es, ok := s.(*ast.ExprStmt); ok {
-					if c, ok := es.X.(*ast.CallExpr); ok {
-						if id, ok := c.Fun.(*ast.Ident); ok && id.Name == "verifAt" {
-							continue
-						}
-					}
+				if drop(s) {
+					changed = true
+					continue
 				}
 				out = append(out, s)
 			}
@@ -80,6 +120,44 @@ func stripHooks(n ast.Node) {
 		}
 		return true
 	})
+	return changed
+}
+
+// stripHooks removes the hook statements from every block and then, repeatedly, every
+// `x := <pure expression>` whose variable is not referenced any more: such a binding can only have
+// existed to feed a hook (Go rejects unused variables), e.g. `cond := wg.cond` captured under the
+// mutex for a later verifAt. Nothing else is touched, so a change of anything the function does
+// besides calling hooks still changes the hash.
+func stripHooks(fd *ast.FuncDecl) {
+	filterStmts(fd, isHookStmt)
+	for {
+		uses := map[string]int{}
+		// occurrences of a name as an identifier; the field name of a selection (wg.cond) is not a
+		// reference to a variable. Other over-counting only keeps a binding (conservative).
+		var count func(x ast.Node) bool
+		count = func(x ast.Node) bool {
+			switch v := x.(type) {
+			case *ast.SelectorExpr:
+				ast.Inspect(v.X, count)
+				return false
+			case *ast.Ident:
+				uses[v.Name]++
+			}
+			return true
+		}
+		ast.Inspect(fd, count)
+		changed := filterStmts(fd, func(s ast.Stmt) bool {
+			as, ok := s.(*ast.AssignStmt)
+			if !ok || as.Tok != token.DEFINE || len(as.Lhs) != 1 || len(as.Rhs) != 1 {
+				return false
+			}
+			id, ok := as.Lhs[0].(*ast.Ident)
+			return ok && id.Name != "_" && uses[id.Name] == 1 && pureExpr(as.Rhs[0])
+		})
+		if !changed {
+			return
+		}
+	}
 }
 
 func shapeOf(fd *ast.FuncDecl) []string {
